@@ -303,7 +303,7 @@ def config_scenario(rng, i, lines, fam, tier):
     for j, c in enumerate(cfgs):
         ls += block(rng, lines, c, j == 0)
     return Scenario("cfg-%d-%s" % (i, fam), ls, {"kind": "config", "family": fam, "blocklen": len(lines) + 8, "ncfg": len(cfgs),
-                                                 "nomodel": fam == "samples"})
+                                                 "nomodel": False})
 
 # ----------------------------------------------------------------------------- stream B: histories
 
